@@ -104,6 +104,24 @@ func GenTxs(t *rapid.T, tr *Tree, parent *Node, k int) []*wire.MsgTx {
 		if len(sp) == 0 {
 			break
 		}
+		if tr.Family == FamNoBIP34 && i == 0 {
+			// bias: spend the duplicate-able coinbase output first so that its
+			// txid can legally be re-created
+			dh := tr.DupCoinbaseHash(height)
+			for j, op := range sp {
+				if op.Hash == dh && rapid.IntRange(0, 3).Draw(t, "spendDup") != 0 {
+					sp[0], sp[j] = sp[j], sp[0]
+					tx := SpendTx(1, []wire.OutPoint{sp[0]}, []*wire.TxOut{{Value: u[sp[0]].Value, PkScript: OpTrue}}, 0, 0xffffffff)
+					ApplyTx(u, tx, height, false)
+					txs = append(txs, tx)
+					sp = nil
+					break
+				}
+			}
+			if sp == nil {
+				continue
+			}
+		}
 		nin := rapid.IntRange(1, min(3, len(sp))).Draw(t, "nin")
 		// choose nin distinct outpoints
 		var ins []wire.OutPoint
